@@ -265,7 +265,9 @@ fn controller(sh: Arc<Shared>) {
                 } else {
                     true
                 };
-                if go {
+                // a run of more than 40k accesses on an 8-vertex graph does not terminate: stop
+                // scheduling, the watchdog reports it as a hang
+                if go && g.choices < 40_000 {
                     waiting_since = None;
                     let t = choose(&mut g, &parked);
                     g.last = t;
@@ -775,7 +777,7 @@ fn main() {
             None => "None".to_string(),
             Some(x) => format!("(Some {}%N)", x.to_bits()),
         };
-        let tr: Vec<u64> = o.trace.iter().map(enc).collect();
+        let tr: Vec<u64> = if matches!(o.res, Guarded::Done(_)) { o.trace.iter().map(enc).collect() } else { vec![] };
         let coq = format!(
             "mk05 {} {} {} {} {} {} {} {}",
             coq_rows(&c.g),
